@@ -1,4 +1,5 @@
 import Sml.Props.C12
+import Sml.Lemmas.SmallFixes
 
 #print axioms Sml.C12.tlf_eq_spec
 #print axioms Sml.C12.tlf_rest
@@ -19,3 +20,9 @@ import Sml.Props.C12
 #print axioms Sml.C12.status_exact
 #print axioms Sml.C12.bool_exact
 #print axioms Sml.C12.octet_exact
+#print axioms Sml.C12.tlf_iff
+#print axioms Sml.C12.tlf_error_iff
+#print axioms Sml.C12.narrow_min
+#print axioms Sml.C12.narrow_least
+#print axioms Sml.C12.contError_overflow_iff
+#print axioms Sml.C12.contError_eq_overflow_iff
